@@ -129,6 +129,18 @@ func c05Job(h *HistSys, depth int, crash bool) Job {
 		}
 		per := func(hist []Op, w2 *world.World, obs Obs) {
 			n := obs.APIn
+			if !crash {
+				// the fault-free successor itself: agreement after every completed operation, restart equivalence
+				evals++
+				if f := agreeMemStore(w2); f != nil {
+					add(hist, f, "nofault", 0)
+				} else if n > 0 || len(hist) == 1 {
+					w, _, _ := BuildHist(h, hist)
+					if f := restartCompare(w); f != nil {
+						add(hist, f, "nofault", 0)
+					}
+				}
+			}
 			if n == 0 {
 				return
 			}
